@@ -54,8 +54,10 @@ def Call.isWrite : Call → Bool
   | .listDatabases .. => false
   | _ => true
 
-/-- argument validation performed before `Begin` (collection.go: validateReplacement) -/
+/-- argument validation performed before `Begin` (collection.go: validateReplacement; Collection.Drop
+    validates its handle — a collection name is needed — before beginning the transaction) -/
 def Call.prevalidationFails : Call → Bool
+  | .dropCollection h => (h.validate true).toBool == false
   | .replaceOne _ _ repl _ => (validateReplacement repl).toBool == false
   | .findOneAndReplace _ _ repl _ _ _ _ => (validateReplacement repl).toBool == false
   | .bulkWrite _ models _ => models.any fun m => match m with
